@@ -36,9 +36,10 @@ NewAct(a, ovf) ==
 \* other fields, but without a year - designates the year through them; everything else is as for `with` on the year so designated
 EraYearOf(era, ey) == IF era = "ce" THEN ey ELSE 1 - ey
 Eras == {"ce", "bce"}
-EraExtras == {"none", "month", "day", "code", "month-day"}
+EraExtras == {"none", "month", "day", "code", "month-day", "month13", "month0"}
 EraExtra(k, year) == CASE k = "none" -> [year |-> year] [] k = "month" -> [year |-> year, month |-> 2] [] k = "day" -> [year |-> year, day |-> 31]
-                       [] k = "code" -> [year |-> year, monthCode |-> "M02"] [] OTHER -> [year |-> year, month |-> 12, day |-> 1]
+                       [] k = "code" -> [year |-> year, monthCode |-> "M02"] [] k = "month13" -> [year |-> year, month |-> 13] [] k = "month0" -> [year |-> year, month |-> 0]
+                       [] OTHER -> [year |-> year, month |-> 12, day |-> 1]
 EraAct(era, ey, extra, ovf) ==
   /\ cur # Nothing /\ cur.ty = "date" /\ cur.v.y \in 1..9999
   /\ LET p == EraExtra(extra, EraYearOf(era, ey))
